@@ -112,6 +112,24 @@ def make_twin(repo: Path, dst: Path, kind: str):
                 if isinstance(c, ast.FunctionDef) and c.name in ("convert", "unsquash"):
                     _rename_deep(c)
             p.write_text(ast.unparse(t) + "\n")
+    elif kind == "reorder":
+        # methods of a class in reverse order (accessors of one property stay together and in order)
+        for rel in ("parser.py", "visitors.py", "elements.py", "procbank.py", "prog.py", "error_handler.py"):
+            p = dst / "coco" / "b09" / rel
+            t = ast.parse(p.read_text())
+            for c in t.body:
+                if isinstance(c, ast.ClassDef):
+                    head = [x for x in c.body if not isinstance(x, ast.FunctionDef)]
+                    groups: Dict[str, list] = {}
+                    for x in c.body:
+                        if isinstance(x, ast.FunctionDef):
+                            gname = x.name
+                            for d in x.decorator_list:
+                                if isinstance(d, ast.Attribute) and isinstance(d.value, ast.Name) and d.attr in ("setter", "getter", "deleter"):
+                                    gname = d.value.id
+                            groups.setdefault(gname, []).append(x)
+                    c.body = head + [f for name in reversed(list(groups)) for f in groups[name]]
+            p.write_text(ast.unparse(t) + "\n")
     elif kind == "library-layout":
         p = dst / "coco" / "resources" / "ecb.b09"
         out = []
@@ -129,7 +147,7 @@ def make_twin(repo: Path, dst: Path, kind: str):
         raise ValueError(kind)
 
 
-TWINS = ["reformat", "rename", "rename-decoders", "library-layout"]
+TWINS = ["reformat", "rename", "rename-decoders", "reorder", "library-layout"]
 
 
 # ---------------------------------------------------------------------------
